@@ -3,6 +3,11 @@
 clauses of the statement that are not claimed."""
 
 PROPS = {
+    'C02': {'scans': [], 'trusted': [], 'bounded': [], 'not_claimed': []},
+    'C03': {'scans': [], 'trusted': [], 'bounded': [], 'not_claimed': []},
+    'C04': {'scans': [], 'trusted': [], 'bounded': [], 'not_claimed': []},
+    'C05': {'scans': [], 'trusted': [], 'bounded': [], 'not_claimed': []},
+    'C01': {'scans': ['allowed_subset_graph', 'state_written_only_by_the_machine'], 'trusted': [], 'bounded': [], 'not_claimed': []},
     'C14': {'scans': [], 'trusted': [], 'bounded': [], 'not_claimed': []},
     'C20': {'scans': [], 'trusted': [], 'bounded': [], 'not_claimed': []},
     'C15': {'scans': [], 'trusted': [], 'bounded': [], 'not_claimed': []},
